@@ -513,7 +513,9 @@ emitFileName(EmitInfo finfo, FTypeNo ft)
 	FTypeNo			fto = ft;
 	int			i;
 
-	if (emitOutputFileName[ft])
+	/* A name given with -Fc=/-Fo= is that of the compiled file, not of aldormain. */
+	if (emitOutputFileName[ft] &&
+	    !(emitInfoIsAXLmain(finfo) && (ft == FTYPENO_C || ft == FTYPENO_OBJECT)))
 		return emitOutputFileName[ft];
 
 	if (emitInfoFname(finfo, ft))
